@@ -12,12 +12,12 @@
                                                                repaired id_order] (C04) on
                                                                [Convert.vld_of_syn]
     len(validationErrs) > 0: Response{Errors: ...}             [PInvalid]
-    executor.ExecuteRequest: GetOperation,                     [ExecModel.get_operation] on
-      coerceVariableValues (its verdict is an INPUT of this    [Convert.exe_of_syn];
-      model: [VE = None] it failed, [Some E] the coerced       [PVarsRejected];
-      variables as far as @skip/@include read them; the
-      coercion itself is modelled in C05),
-      executeQuery / Mutation / SubscriptionEvent              [ExecModel.run fixed] (C01) with
+    executor.ExecuteRequest: GetOperation,                     [ArgModel.get_operation] on
+                                                               [Convert.exe_of_syn];
+      coerceVariableValues on the RAW variable values          [ArgModel.coerce_request_vars] =
+                                                               C05's [coerce_variable_values];
+      executeQuery / Mutation / SubscriptionEvent, field       [ArgModel.run fixed] (C01 x C05:
+      arguments coerced by coerceArgumentValues                [coerce_argument_values]) with
                                                                [default_fuel]
     Response{Data: &data, Errors: errs}                        [PExecuted data errs]
 
@@ -30,25 +30,26 @@
                            proved that an accepted document satisfies it).
     A failure is [PContractBroken]; the correspondence check reports it as an oracle failure.
     [doc_ok] also contains C01's hypothesis that every @skip/@include condition has a boolean value
-    in [E]; a validated request can violate that one (a nullable variable with a default, given
-    null): then the executor model is run without a theorem about it: [PUnevaluable]. *)
+    among the coerced variables; a validated request can violate that one (a nullable variable with
+    a default, given null): then the executor model is run without a theorem about it:
+    [PUnevaluable].  A failing CoerceVariableValues, an undetermined operation: [PExecuted None [e]]
+    (no data, that one error), as ExecuteRequest answers. *)
 From Coq Require Import List NArith ZArith Bool.
 From ApiFu Require Import Base.Sexp.
 From ApiFu Require Syn.Ast Syn.ParserModel Syn.FrontEnd.
 From ApiFu Require Vld.Ast Vld.ValidatorModel.
-From ApiFu Require Exe.ExecData Exe.ExecModel Exe.ExecSpec Exe.ExecHyps.
+From ApiFu Require Val.Values ExeA.ArgData ExeA.ArgArgs ExeA.ArgModel ExeA.ArgSpec ExeA.ArgHyps.
 From ApiFu Require Import Pipe.Convert.
 Import ListNotations.
 
-Inductive stage_id := StParse | StValidate | StExecute.
+Inductive stage_id := StParse | StValidate | StCoerce | StExecute.
 Inductive contract := CPositions | CDocOk.
 
 Inductive presult :=
 | PSyntax (e : Syn.Ast.pos) (es : list Syn.Ast.pos)             (* Response{Errors}: syntax errors *)
 | PInvalid (e : Vld.Ast.verror) (es : list Vld.Ast.verror)      (* Response{Errors}: validation errors *)
-| PExecuted (data : option Exe.ExecData.json) (errs : list Exe.ExecData.gerror)
-| PVarsRejected                                                  (* nil data, the one coercion error *)
-| PUnevaluable (r : Exe.ExecModel.run_result)
+| PExecuted (data : option ExeA.ArgData.json) (errs : list ExeA.ArgData.gerror)
+| PUnevaluable (r : ExeA.ArgModel.run_result)
 | PContractBroken (c : contract)
 | PPanic (s : stage_id)
 | POutOfFuel (s : stage_id).
@@ -83,35 +84,42 @@ Definition parse_and_validate_order (pi : Vld.ValidatorModel.order) (VS : Vld.As
 Definition parse_and_validate_bytes := parse_and_validate_order Vld.ValidatorModel.id_order.
 
 (** ** the back half: executor.ExecuteRequest on the accepted document *)
-Definition of_run (r : Exe.ExecModel.run_result) : presult :=
+Definition of_run (r : ExeA.ArgModel.run_result) : presult :=
   match r with
-  | Exe.ExecModel.Done d errs => PExecuted d errs
-  | Exe.ExecModel.Panic => PPanic StExecute
-  | Exe.ExecModel.OutOfFuel => POutOfFuel StExecute
+  | ExeA.ArgModel.Done d errs => PExecuted d errs
+  | ExeA.ArgModel.Panic => PPanic StExecute
+  | ExeA.ArgModel.OutOfFuel => POutOfFuel StExecute
   end.
 
-Definition execute_doc (ES : Exe.ExecData.schema) (d : Syn.Ast.document) (opname : Exe.ExecData.name)
-           (VE : option Exe.ExecData.env) (W : Exe.ExecData.outcome) : presult :=
+Definition execute_doc (ES : ExeA.ArgData.schema) (d : Syn.Ast.document) (opname : ExeA.ArgData.name)
+           (raw : list (ExeA.ArgData.name * Val.Values.jval)) (W : ExeA.ArgData.outcome) : presult :=
   let R := exe_of_syn d in
-  match Exe.ExecModel.get_operation R opname, VE with
-  | Exe.ExecModel.GOp o, None => PVarsRejected
-  | Exe.ExecModel.GOp o, Some E =>
-      let D := Exe.ExecData.doc_of R o in
-      let fuel := Exe.ExecModel.default_fuel D in
-      if negb (Exe.ExecHyps.doc_positions_okb D) then PContractBroken CPositions
-      else if negb (Exe.ExecHyps.dirs_evaluable D E) then PUnevaluable (Exe.ExecModel.run Exe.ExecModel.fixed ES D E fuel W)
-      else if negb (Exe.ExecSpec.doc_ok ES D E fuel fuel) then PContractBroken CDocOk
-      else of_run (Exe.ExecModel.run Exe.ExecModel.fixed ES D E fuel W)
-  | _, _ => of_run (Exe.ExecModel.run_request Exe.ExecModel.fixed ES R opname [] 0 W)
+  match ExeA.ArgModel.get_operation R opname with
+  | ExeA.ArgModel.GOp o =>
+      match ExeA.ArgModel.coerce_request_vars ES o raw with
+      | Val.Values.Ok vv =>
+          let D := ExeA.ArgData.doc_of R o vv in
+          let E := ExeA.ArgArgs.env_of_vars vv in
+          let fuel := ExeA.ArgModel.default_fuel D in
+          if negb (ExeA.ArgHyps.doc_positions_okb D) then PContractBroken CPositions
+          else if negb (ExeA.ArgHyps.dirs_evaluable D E) then PUnevaluable (ExeA.ArgModel.run ExeA.ArgModel.fixed ES D E fuel W)
+          else if negb (ExeA.ArgSpec.doc_ok ES D E fuel fuel) then PContractBroken CDocOk
+          else of_run (ExeA.ArgModel.run ExeA.ArgModel.fixed ES D E fuel W)
+      | Val.Values.Err =>
+          (* CoerceVariableValues fails: no data, that one error *)
+          of_run (ExeA.ArgModel.run_request ExeA.ArgModel.fixed ES R opname raw 0 W)
+      | Val.Values.Panic => PPanic StCoerce
+      end
+  | _ => of_run (ExeA.ArgModel.run_request ExeA.ArgModel.fixed ES R opname raw 0 W)
   end.
 
-(** ** graphql.Execute(&Request{Query: bs, Schema, Features, OperationName, VariableValues, InitialValue}) *)
-Definition pipeline_order (pi : Vld.ValidatorModel.order) (VS : Vld.Ast.schema) (F : Vld.Ast.features) (ES : Exe.ExecData.schema)
-           (bs : bytes) (opname : Exe.ExecData.name) (VE : option Exe.ExecData.env) (W : Exe.ExecData.outcome) : presult :=
+(** ** graphql.Execute(&Request{Query: bs, Schema, Features, OperationName, VariableValues: raw, InitialValue}) *)
+Definition pipeline_order (pi : Vld.ValidatorModel.order) (VS : Vld.Ast.schema) (F : Vld.Ast.features) (ES : ExeA.ArgData.schema)
+           (bs : bytes) (opname : ExeA.ArgData.name) (raw : list (ExeA.ArgData.name * Val.Values.jval)) (W : ExeA.ArgData.outcome) : presult :=
   match parse_and_validate_order pi VS F bs with
   | FSyntax e es => PSyntax e es
   | FInvalid e es => PInvalid e es
-  | FAccepted d => execute_doc ES d opname VE W
+  | FAccepted d => execute_doc ES d opname raw W
   | FPanic s => PPanic s
   | FOutOfFuel s => POutOfFuel s
   end.
@@ -120,12 +128,12 @@ Definition pipeline_model := pipeline_order Vld.ValidatorModel.id_order.
 
 (** ** the response, as far as C03 speaks about it (PipelineModel.response) *)
 Definition is_response (r : presult) : bool :=
-  match r with PSyntax _ _ | PInvalid _ _ | PExecuted _ _ | PVarsRejected => true | _ => false end.
+  match r with PSyntax _ _ | PInvalid _ _ | PExecuted _ _ => true | _ => false end.
 
 (** the property's clause: no (or null) data only together with errors *)
 Definition data_or_errors_p (r : presult) : bool :=
   match r with
-  | PSyntax _ _ | PInvalid _ _ | PVarsRejected => true (* no data, at least one error *)
+  | PSyntax _ _ | PInvalid _ _ => true                 (* no data, at least one error *)
   | PExecuted None errs => match errs with [] => false | _ => true end
   | PExecuted (Some _) _ => true
   | _ => false
@@ -134,6 +142,6 @@ Definition data_or_errors_p (r : presult) : bool :=
 (** every number in the data has a JSON form *)
 Definition serialisable_p (r : presult) : bool :=
   match r with
-  | PExecuted (Some j) _ => Exe.ExecData.json_finite j
+  | PExecuted (Some j) _ => ExeA.ArgData.json_finite j
   | _ => true
   end.
